@@ -275,7 +275,7 @@ def run(ctx):
 
     def add_counters(res):
         for k, v in res["counters"].items():
-            counters[k] = counters.get(k, 0) + v
+            counters[k] = max(counters.get(k, 0), v) if k.endswith("_max") else counters.get(k, 0) + v
         for s in res["inconclusive"]:
             ctx.note_inconclusive(s)
 
@@ -400,7 +400,9 @@ def run(ctx):
     need = ["gen_key_simple_boundary", "gen_key_tenant_boundary", "gen_value_boundary", "gen_ts_duplicate_key",
             "gen_ts_members_32", "gen_ts_members_33", "gen_tp_trailing", "gen_tp_other_version", "obs_ts_accepted",
             "obs_ts_rejected", "obs_extract_valid", "obs_extract_untouched", "obs_extract_with_tracestate",
-            "obs_edit_on_full_list", "obs_roundtrips", "edits_at_capacity", "edits_refused", "cases_with_choice"]
+            "obs_edit_on_full_list", "obs_roundtrips", "edits_at_capacity", "edits_refused", "cases_with_choice",
+            "edits_from_non_initial_state", "edits_insert_new", "edits_insert_update_or_evict", "edits_delete_present",
+            "edits_delete_absent", "edit_cases_with_choice"]
     missing = [k for k in need if not counters.get(k)]
     if missing:
         ctx.note_inconclusive("vacuity: regimes never reached: %s" % missing)
